@@ -28,6 +28,23 @@ fn components(thorough: bool) -> Vec<(&'static str, bool, Vec<Entry>)> {
         ("k", true, vec![Entry::dir("k"), Entry::file("k/a", "k/a"), Entry::link("k/lr", "a"), Entry::link("k/la", "{R}/k/a"), Entry::link("k/ld", "nowhere"), Entry::link("k/lup", "../a")]),
         ("l", false, vec![Entry::file("ltarget", "target of l"), Entry::link("l", "ltarget")]),
     ];
+    // unusual but legal names: the longest name a directory entry can have, glob metacharacters (no --glob), a
+    // leading dash, a newline, names that look like backups or end in dot / tilde / blank, prefix-related names, and
+    // a chain of directories deeper than any constant in the code
+    {
+        let long = "L".repeat(255);
+        let mut es = vec![Entry::dir("n")];
+        for (i, name) in [long.as_str(), "-dash", "a\\x0ab", "star*", "q?", "[b]", "b", "tilde~", "dot.", "x.~1~", "..two", " lead", "trail ", "ab", "ab.d", "a\\\\b", "{}"].iter().enumerate() {
+            es.push(Entry::file(&format!("n/{}", name), &format!("unusual name #{}", i)));
+        }
+        let mut p = "n".to_string();
+        for i in 0..24 {
+            p = format!("{}/d{}", p, i);
+            es.push(Entry::dir(&p));
+        }
+        es.push(Entry::file(&format!("{}/bottom", p), "at the bottom of 24 levels"));
+        v.push(("n", true, es));
+    }
     if thorough {
         v.push(("deep", true, vec![Entry::dir("deep"), Entry::dir("deep/d1"), Entry::dir("deep/d1/d2"), Entry::file("deep/d1/d2/f", "deep f"), Entry::link("deep/d1/up", "../..")]));
     }
